@@ -57,7 +57,9 @@ let string_of_cond = function
   | JSet -> "set" | JNSet -> "nset"
 let op_of = function
   | "Eq" -> OpEq | "Ne" -> OpNe | "Gt" -> OpGt | "Lt" -> OpLt | "Ge" -> OpGe | "Le" -> OpLe
-  | "Set" -> OpSet | "NSet" -> OpNSet | "Other" -> OpOther | s -> failwith ("bad op " ^ s)
+  | "Set" -> OpSet | "NSet" -> OpNSet
+  | s when Stdlib.String.length s >= 5 && Stdlib.String.sub s 0 5 = "Other" -> OpOther
+  | s -> failwith ("bad op " ^ s)
 
 let string_of_instr = function
   | ILd off -> "ld:" ^ string_of_n off
